@@ -13,7 +13,12 @@ RULE = ("names: every string over {a,z,0,9,-,.,A,_,+,space}: quick = all lengths
         "(thorough), random; TXT lengths 0..1025 incl. non-UTF-8; unsupported types; setRecord ids 0/1/15/16/255, identical value, value of "
         "another id, second CNAME; signer sets {none,u1,u2,committee,u1+u2,committee+u3}; committed histories (registerTLD/register/"
         "addRecord/setRecord incl. setRecord directed at existing records/getRecords, valid and invalid arguments) with a decoded storage "
-        "scan after every transaction; corpus: the F7/F8/F9 witnesses, the boundary inputs, setRecord on existing records. "
+        "scan after every transaction; registered parent chains (com, then labels of 63/63/63 bytes level by level by their owner; thorough: "
+        "16 chain shapes such as 63/63/61, 62/62/62, 50x4, 63/63/63/59, 20x9 spread over the shards): children whose well-formed label "
+        "brings the FULL name to 253/254/255 (accepted) and 256/257/258 bytes, a 64-byte label, children of the 254/255-byte names "
+        "(257..319 bytes), malformed labels below a registered parent, each through register (committed), isAvailable, addRecord's name "
+        "argument, setRecord, getRecords and as CNAME data; corpus: the F7/F8/F9 witnesses, the boundary inputs, setRecord on existing "
+        "records, the registered parent chain. "
         "op_histogram['exhaustive.*'] = number of strings of each exhaustive stratum, op_histogram['seconds.shardNN'] = wall seconds of "
         "each shard's generation. distinct_nontrivial = distinct (operation, observation) pairs of HALTed invocations")
 PROPS = {
